@@ -110,7 +110,7 @@ def analyze_accumulator(in_model, x, verbose=False):
 
       all_bits = []
       nbits = []
-      for i in range(k.shape[1]):
+      for i in range(k.shape[-1]):
         # compute sum of positive weights
         npp = np.sum(k[..., i] * (k[..., i] > 0)) + (b[i] > 0) * b[i]
 
